@@ -296,15 +296,23 @@ pub fn c03(ctx: &Ctx) -> i32 {
         nontrivial: |c| c.trades > 0,
         nontrivial_rule: "at least one trade was logged",
     };
-    let out = run_book_spec(ctx, &spec);
+    let mut out = run_book_spec(ctx, &spec);
+    // the same ledger through the multi-asset wrapper: per asset log prefix, record fields, counter = sum since the last
+    // reset (market-wide resets and resets of a single asset's book), in markets of 1..4, 12 and 66 assets
+    let mout = crate::checks_mixed::run_market_spec(ctx, "c03", crate::marketsession::MK_LEDGER, &[0, 1, 2, 3, 4, 5], ctx.tier.pick(6000, 120_000), 150);
+    out.violations.extend(mout.violations);
     let c = &out.census;
     let inconclusive = floors(&[
         ("trades", c.trades, 1000),
         ("modifies_that_traded", c.modifies_that_traded, 50),
         ("partial_fills_passive", c.partial_fills_passive, 100),
         ("toggles", c.toggles, 50),
+        ("market_ledger_audits", mout.census.ledger_audits, 10_000),
+        ("market_trades_audited", mout.census.ledger_trades_audited, 1000),
+        ("market_counter_resets", mout.census.counter_resets, 500),
     ]);
-    let cov = book_coverage(&spec, &out, "Ledger audit after every operation, independent of the reference engine: log prefix unchanged, each new record's time/side/price/volume/ids, opposite sides, limits admit the price, passive order was resting before the call, per-order volume account (submitted minus logged trades = current), cumulative counter = sum since the last reset issued by the harness.");
+    let mut cov = book_coverage(&spec, &out, "Ledger audit after every operation, independent of the reference engine: log prefix unchanged, each new record's time/side/price/volume/ids, opposite sides, limits admit the price, passive order was resting before the call, per-order volume account (submitted minus logged trades = current), cumulative counter = sum since the last reset issued by the harness. Market sessions: the same audit per asset through Market<1..4, 12, 66 assets> (get_trades(asset), get_trade_vols, market-wide and single-book resets).");
+    cov["market_sessions"] = serde_json::json!(mout.census);
     ctx.finish("exploration", cov, valid_history_assumptions(), out.violations, inconclusive)
 }
 
